@@ -405,6 +405,36 @@ func checkC19(c *mc.Ctx) {
 		st := &Stream{Name: "big-units", Pkts: ps, Bytes: EncodePkts(ps)}
 		c19Parsers(c, st, ps)
 	}
+	// a duplicate packet with a re-stamped PCR (ISO 13818-1 2.4.3.3: a duplicate repeats every byte of the original
+	// except the PCR, which is encoded with a valid value of its own), on the SDT PID with sections packed back to back:
+	// the duplicated packet ends one section in front of its pointer target and starts the next one, which runs on
+	{
+		var secs [][]byte
+		for k, n := range []int{200, 250, 250, 60} {
+			d := modelSDT(1)
+			d.TransportStreamID = uint16(0x900 + k)
+			d.Services[0].Descriptors = fixLens([]*astits.Descriptor{{Tag: 0x88, UserDefined: fillBytes(n-40, byte(0x40+k))}, {Tag: 0x89, UserDefined: fillBytes(n-40, byte(0x50+k))}})
+			secs = append(secs, SecSDT(d, ref.SecHdr{CNI: true, Version: uint8(k)}))
+		}
+		cc := uint8(6)
+		ps, _, _ := packContinuous(0x11, secs, &cc, func(k int) int {
+			if k == 1 {
+				return 8
+			}
+			return 0
+		})
+		if len(ps) >= 3 && ps[1].PUSI && ps[1].Payload[0] > 0 && ps[1].HasAF && !ps[2].PUSI {
+			ps[1].AF.PCR, ps[1].AF.Stuffing = &ref.PCR{Base: 1000, Ext: 1}, ps[1].AF.Stuffing-6
+			dup := *ps[1]
+			af := *ps[1].AF
+			af.PCR = &ref.PCR{Base: 1010, Ext: 2}
+			dup.AF = &af
+			all := append(append(append([]*ref.Pkt{}, ps[:2]...), &dup), ps[2:]...)
+			st := &Stream{Name: "restamped-duplicate", Pkts: all, Bytes: EncodePkts(all)}
+			c19Parsers(c, st, all)
+			c.Ev.Class("duplicate-with-restamped-pcr", 1)
+		}
+	}
 	// long runs of skipped packets: every run length 0..110 at four start positions in a stream of 120 single-packet
 	// units on two PIDs - however many packets are skipped in a row, the next one that is not skipped is returned
 	{
@@ -463,7 +493,7 @@ func checkC19(c *mc.Ctx) {
 		}
 		c19Parsers(c, st, refPk)
 	}
-	c.Ev.Require("mixed-skip-vector", "long-skip-run", "skip-vector-with-auto-detection", "skip-vector-with-parser", "structured-predicate", "parser-observer", "parser-replacer", "parser-replacer-returns-nothing", "parser-identity-replacer", "parser-constant-slice-replacer", "parser-failing-on-non-pat-unit")
+	c.Ev.Require("mixed-skip-vector", "duplicate-with-restamped-pcr", "long-skip-run", "skip-vector-with-auto-detection", "skip-vector-with-parser", "structured-predicate", "parser-observer", "parser-replacer", "parser-replacer-returns-nothing", "parser-identity-replacer", "parser-constant-slice-replacer", "parser-failing-on-non-pat-unit")
 }
 
 // IdenticalRunsStream carries runs of byte-identical packets (null packets with the same undefined
@@ -730,7 +760,7 @@ func c19Parsers(c *mc.Ctx, st *Stream, refPk []*ref.Pkt) {
 				break
 			}
 		}
-		if mode < 0 && st.Name != "headless-lookalikes" { // units cut by a counter gap are never assembled: C06's subject
+		if mode < 0 && st.Name != "headless-lookalikes" && st.Name != "restamped-duplicate" { // units cut by a counter gap are never assembled: C06's subject
 			// section-end views (index -1) are not packets of their own
 			stripped := map[uint16][][]int{}
 			for pid, gs := range groups {
@@ -747,7 +777,7 @@ func c19Parsers(c *mc.Ctx, st *Stream, refPk []*ref.Pkt) {
 			if mc.Canon(stripped) != mc.Canon(expGroups) {
 				rep("parser-unit-partition", fmt.Sprintf("parser saw groups %v, the stream carries %v", groups, expGroups))
 			}
-		} else if st.Name != "headless-lookalikes" {
+		} else if st.Name != "headless-lookalikes" && st.Name != "restamped-duplicate" {
 			// a failing parser keeps a PAT from being learned, which legitimately changes when (and
 			// whether) PMT units are flushed: demand only that every group handed over is one of the
 			// carried units, at most once and in per-PID order
@@ -810,7 +840,7 @@ func c19Parsers(c *mc.Ctx, st *Stream, refPk []*ref.Pkt) {
 			c.Ev.Class("parser-failing", 1)
 			// a parser failing on a unit that is not a PAT changes nothing else: every other unit is still handed over
 			// exactly once, and every other datum is delivered
-			if mode < len(kept) && len(kept[mode]) > 0 && kept[mode][0].Header.PID != 0 && st.Name != "headless-lookalikes" {
+			if mode < len(kept) && len(kept[mode]) > 0 && kept[mode][0].Header.PID != 0 && st.Name != "headless-lookalikes" && st.Name != "restamped-duplicate" {
 				failPID := kept[mode][0].Header.PID
 				stripped := map[uint16][][]int{}
 				for pid, gs := range groups {
